@@ -14,6 +14,7 @@
        finished returns without waiting for a Run that has been launched but not yet begun.
      - run exit OnSignal (returns nil / a cancellation error once signalled or its context is
        cancelled), Free (may return anything at any time), Never.
+   [fix_ms]: hasMembershipChanged compares name multisets (hooks/fix-c09-membership-multiset.patch).
    [fix_c09] selects the candidate repair hooks/fix-c09-composite-stop-during-reload.patch
    (Run takes reloadMu around its stopAllRunnables), committed as /repo 82de565; [fix_c11] the one for
    hasMembershipChanged (/repo 5b52fc2); [fix_lc] the repaired lifecycle.StartStop (/repo b0569e6:
@@ -34,7 +35,7 @@ Inductive rkind := RWC | RPlain | RNone.   (* has ReloadWithConfig / only Reload
 
 Record cspec := mkSpec { c_name : N; c_stop : sstyle; c_exit : rexit; c_rk : rkind }.
 Record params := mkParams { pool : list cspec; fix_c09 : bool; fix_c11 : bool; fix_stale : bool;
-                            fix_lc : bool }.
+                            fix_lc : bool; fix_ms : bool }.
 
 Definition default_spec : cspec := mkSpec 0%N NonBlocking OnSignal RNone.
 Definition spec_of (P : params) (c : N) : cspec := nth (N.to_nat c) (pool P) default_spec.
@@ -58,11 +59,30 @@ Definition sort_N (l : list N) : list N := fold_right insert_N [] l.
 
 Definition names (P : params) (cf : config) : list N := map (fun e => name_of P (fst e)) cf.
 
-(* hasMembershipChanged, as written: length test, then every new name must be an old name.
-   [fix_c11] selects the candidate repair hooks/fix-c11-composite-duplicate-entry-names.patch
-   (additionally: the number of distinct new names equals the number of distinct old names). *)
+(* hasMembershipChanged, as written.
+   [fix_ms] (hooks/fix-c09-membership-multiset.patch, the current code): length test, then the names of
+   the old configuration are counted (counts[name]++) and every new entry must use up one occurrence of
+   its name (counts[name] == 0 -> changed; counts[name]--): "unchanged" iff the two name MULTISETS are
+   equal.  [take_out]/[all_taken] are that loop on the list of old names still available.
+   Before it: length test, then every new name must be an old name, and ([fix_c11], /repo 5b52fc2) the
+   number of distinct new names equals the number of distinct old names - equal name SETS, which lets
+   [a;a;b] -> [a;b;b] through as "unchanged"; without [fix_c11] not even that ([a;b] -> [a;a]). *)
+Fixpoint take_out (x : N) (l : list N) : option (list N) :=
+  match l with
+  | [] => None
+  | y :: t => if N.eqb x y then Some t
+              else match take_out x t with Some t' => Some (y :: t') | None => None end
+  end.
+
+Fixpoint all_taken (new avail : list N) : bool :=
+  match new with
+  | [] => true
+  | x :: t => match take_out x avail with Some avail' => all_taken t avail' | None => false end
+  end.
+
 Definition membership_changed (P : params) (old new : config) : bool :=
   if negb (Nat.eqb (length old) (length new)) then true
+  else if fix_ms P then negb (all_taken (names P new) (names P old))
   else if existsb (fun e => negb (mem_N (name_of P (fst e)) (names P old))) new then true
   else if fix_c11 P then negb (Nat.eqb (length (sort_N (names P new))) (length (sort_N (names P old))))
   else false.
